@@ -164,6 +164,26 @@ CLAIMS = {
         note=("trusted: as C02; the multi-file cases (rollover, snapshot pointer files) are covered by the `logstore` "
               "correspondence with the real RaftLogManager/FileStore, not by a theorem"),
         technique="Lean 4 theorem (representation invariant) + differential correspondence"),
+    "C04": dict(
+        category="fault_enumeration",
+        text=("Decided by complete enumeration of crash points, not by a theorem: the real FileStore runs generated histories "
+              "(appends, batches with rollover, truncations across files, hard-state and last-applied saves, flush points) "
+              "under an LD_PRELOAD interposer that journals every file mutation in kernel order with acknowledgement markers; "
+              "EVERY prefix of the journal is materialised and opened by the real recovery code in a fresh process, judged by "
+              "the oracle CrashOK (opens; contiguous; a log that existed; everything acknowledged-and-flushed present; "
+              "metadata written at some point; applied index inside the log) and probed for usability (append, restart, "
+              "re-read). Lean (Props/C04.lean) proves the part the single-file model carries: operations that issue one file "
+              "write are atomic, both crash points hold a well-formed file and recover exactly (C02's invariant), the "
+              "recovery's repair step is the identity on complete files. Found and fixed: F24 (torn index step), F25 (index "
+              "entry before its record), F26 (file before catalogue)."),
+        note=("machine-checked proof does not decide this property: the crash points of the multi-write operations "
+              "(index step, truncation, rollover, multi-file truncation) are interleavings of four actors' file writes that "
+              "vary from run to run, so the check enumerates the journals the real code produces; what is trusted: the "
+              "interposer (write/pwrite/ftruncate/open/unlink/rename), the crash model of the property itself, the list "
+              "specification; compaction and snapshot installation are not enumerated; observed but not demonstrated: an "
+              "append into a freshly created log file may be acknowledged before the catalogue write of that file has "
+              "been issued"),
+        technique="fault enumeration over every prefix of the journal of file mutations (real recovery code) + Lean 4 theorems for single-write operations"),
     "C05": dict(
         category="proof",
         text=("Theorems (lean/RNacos/Props/C05.lean) over the index file byte by byte: reopening after write_index returns "
